@@ -210,11 +210,19 @@ def _same_arrays(x, y, path=""):
             if d:
                 return d
         return None
-    if isinstance(x, (np.ndarray, list, tuple)):
+    if isinstance(x, np.ndarray) or isinstance(y, np.ndarray):
         a, b = np.asarray(x), np.asarray(y)
         if a.shape != b.shape:
             return f"{path}: shapes {a.shape} != {b.shape}"
         return None if np.array_equal(a, b) else f"{path}: values differ"
+    if isinstance(x, (list, tuple)):
+        if not isinstance(y, (list, tuple)) or len(x) != len(y):
+            return f"{path}: lengths differ"
+        for i, (u, v) in enumerate(zip(x, y)):
+            d = _same_arrays(u, v, f"{path}[{i}]")
+            if d:
+                return d
+        return None
     return None if x == y else f"{path}: {x!r} != {y!r}"
 
 
